@@ -162,12 +162,14 @@ CLAIMED.update({
         technique='Coq parser model + kernel-checked escape/corpus facts + respelling differential'),
     'C10': dict(cat='proof', design='DESIGN.md §7 C10',
         text='Theorem (unbounded, UnescFacts.unescape_escape): for EVERY string s, css_unescape(escape(s)) = s with NUL replaced by U+FFFD, over the '
-             'REGENERATED pattern RE_CSS_ESC. Theorem (kernel computation on the model parser and model escape): for ten shapes of every code point below U+0800 and of '
+             'REGENERATED pattern RE_CSS_ESC. Theorem (unbounded, IdentFacts.escape_is_ident): for EVERY non-empty s, escape(s) is an <ident-token> of the CSS Syntax grammar '
+             '(only name characters and well-formed escapes, never a leading digit or lone dash), so it holds no delimiter that could alter the surrounding selector. '
+             'Theorem (kernel computation on the model parser and model escape): for ten shapes of every code point below U+0800 and of '
              'samples up to U+10FFFF incl. lone surrogates, "#"+escape(s), "."+escape(s)+">b" and "[a="+escape(s)+"]" compile to '
              'exactly the identifier s (NUL -> U+FFFD) and nothing after it is swallowed; escape is total and non-empty. '
              'Differential: escape() vs the model on every interesting code point class in every position (thorough: all 0x110000 '
              'code points), compiled structures with 9 follow contexts, selection on documents with near-miss values.',
-        note='unescape(escape(s)) is proved for all strings; that the tokenizer takes escape(s) as ONE identifier token is proved only for the sampled shapes (partial).',
+        note='unescape(escape(s)) and "escape(s) is a CSS ident-token" are proved for all strings; that the library\'s IDENTIFIER pattern consumes exactly that token is proved only for the sampled shapes (partial).',
         technique='Coq model of escape + parser, bounded kernel proof + exhaustive differential'),
     'C20': dict(cat='proof', design='DESIGN.md §0, §7 C20',
         text='Theorems: pretty() terminates on every string (each regenerated token pattern is non-nullable, fallback branch, progress '
